@@ -225,6 +225,25 @@ def main():
             if not rejected(g):
                 em.violation("a damaged frame is accepted right after its undamaged original was parsed", {"frame": f.hex(), "bits": ps}, {})
         em.count("damage.history")
+    # an operation of the library that FAILS half-way (serialising a message whose payload does not fit the length field raises) must not
+    # leave anything behind that changes the next checksum computation or the next verdict
+    from pyrtcm import RTCMMessage as _RM
+    for f in frames[:3]:
+        try:
+            _RM(payload=bytes([0x3e, 0xd0]) + bytes(65540)).serialize()
+        except Exception:  # noqa
+            pass
+        ndet += 3
+        if calc_crc24q(f) != 0 or calc_crc24q(f[:-3]) != gen.crc24q_ref(f[:-3]):
+            em.violation("calc_crc24q returns a wrong value right after a serialize() call that raised", {"message": f.hex(), "note": "history: RTCMMessage(65542-byte payload).serialize() raised just before"}, {})
+        try:
+            _RM(payload=bytes([0x3e, 0xd0]) + bytes(65540)).serialize()
+        except Exception:  # noqa
+            pass
+        g = flip(f, [0, 1, 8, 17, 23])
+        if not rejected(g):
+            em.violation("a damaged frame is accepted right after a serialize() call that raised", {"frame": f.hex(), "bits": [0, 1, 8, 17, 23], "note": "history: failed serialize() first"}, {})
+        em.count("damage.after_failed_serialize")
     # damage of the LENGTH field that turns the frame into <valid shorter frame> + residue: still damage, still to be rejected
     for lf, bits, short in gen.prefix_frame_pairs(rng):
         ndet += 2
